@@ -217,8 +217,8 @@ def dump_wellformed(tier, seed):
     am = atomman()
     uc = am.unitconvert
     boxes, placements, pbcs = _family(tier)
-    units_l = ['metal', 'real'] if tier == 'quick' else UNITS
-    fmts = ['%.13f', '%.6f'] if tier == 'quick' else ['%.13f', '%.6f', '%.10e']
+    units_l = ['metal', 'real', 'nano', 'si'] if tier == 'quick' else UNITS
+    fmts = ['%.13f', '%.10e'] if tier == 'quick' else ['%.13f', '%.6f', '%.10e']
     fails, samples = [], []
     evals = nontriv = 0
     for bx, pl, pbc, units, ff, extra in itertools.product(boxes, placements, pbcs, units_l, fmts, [False, True]):
